@@ -178,6 +178,15 @@ theorem go_record_succeeds (hv : Valid minV maxV s) (vs : List Int) (v : Nat) (h
   have := index_in_range wf0 (v := v) hle
   simp [accepts, this.1, this.2]
 
+/-- the sizing loop of `New`, translated from hdr.go, computes the model's bucket count (and with `bucketsLoop_spec`
+enough buckets for the highest trackable value itself - the comparison that finding F12 had as `<`) -/
+theorem go_sizing_loop_is_model (fuel smallest mx n : Nat) :
+    (Gen.Hdr.New_loop1 (mx : Int) fuel (n : Int) (smallest : Int)).1 = (bucketsLoop fuel smallest mx n : Int) :=
+  New_loop_tie fuel smallest mx n
+
+/-- with the translated loop: `New(1, 2048, 3)` gets the bucket that holds 2048 (F12's input) -/
+example : (Gen.Hdr.New_loop1 2048 64 1 2048).1 = 2 := by decide
+
 example : Gen.Hdr.countsIndexFor (cfgOf (new 1 2048 3)) 2048 = 2048 := by decide
 
 end go
